@@ -504,7 +504,7 @@ func (engine) Body(r *simdrv.Run) {
 	r.Res.Config["exporter_timeout"] = expTimeout.String()
 	r.Res.Config["ctx_timeout"] = ctxTimeout.String()
 	r.Res.Config["shutdown_at"] = shutdownAt.String()
-	sdTimeout := []time.Duration{0, 0, 50 * time.Millisecond, time.Second}[r.Cfg(4)] // 0: Shutdown(context.Background())
+	sdTimeout := []time.Duration{0, 0, 50 * time.Millisecond, time.Second, -1}[r.Cfg(5)] // 0: Shutdown(context.Background()), -1: a context that is already cancelled
 	r.Res.Config["shutdown_ctx_timeout"] = sdTimeout.String()
 	w.sdTimeout = sdTimeout
 	for _, c := range w.calls {
@@ -689,6 +689,10 @@ func (engine) Body(r *simdrv.Run) {
 			if sdTimeout > 0 {
 				sctx, scancel = context.WithTimeout(sctx, sdTimeout)
 				r.Fault("shutdown-with-deadline")
+			} else if sdTimeout < 0 {
+				sctx, scancel = context.WithCancel(sctx)
+				scancel()
+				r.Fault("shutdown-with-cancelled-context")
 			}
 			e := ex.shutdown(sctx)
 			scancel()
@@ -804,20 +808,29 @@ func (w *world) oracle(kind string, rc retryCfg) {
 		// otlptracegrpc when Shutdown's context expires ("will cancel any active calls if ctx expires").
 		// From that instant on no attempt starts and the call returns.
 		forceAt := time.Duration(-1)
+		sdCtx := fmt.Sprint(w.sdTimeout)
+		if w.sdTimeout == 0 {
+			sdCtx = "none"
+		} else if w.sdTimeout < 0 {
+			sdCtx = "already cancelled"
+		}
 		if w.sdCalled && kind == "tracehttp" {
 			forceAt = w.sdInv
 		}
 		if w.sdCalled && kind == "tracegrpc" && w.sdTimeout > 0 {
 			forceAt = w.sdInv + w.sdTimeout
 		}
+		if w.sdCalled && kind == "tracegrpc" && w.sdTimeout < 0 {
+			forceAt = w.sdInv // the context is done when Shutdown is called
+		}
 		if forceAt >= 0 {
 			for _, a := range c.attempts {
 				if a.at > forceAt+time.Millisecond {
-					r.Violate(prop, "attempt-after-shutdown", "attempt-after-forced-shutdown/"+kind, "%s: attempt %d started at %v although Shutdown (invoked at %v, context timeout %v) cancels active exports at %v", where, a.idx, a.at, w.sdInv, w.sdTimeout, forceAt)
+					r.Violate(prop, "attempt-after-shutdown", "attempt-after-forced-shutdown/"+kind, "%s: attempt %d started at %v although Shutdown (invoked at %v, context timeout: %s) cancels active exports at %v", where, a.idx, a.at, w.sdInv, sdCtx, forceAt)
 				}
 			}
 			if c.start <= forceAt && c.end > forceAt+time.Millisecond && !w.concurrent {
-				r.Violate(prop, "returned-late", "returned-late/forced-shutdown/"+kind, "%s returned at %v although Shutdown (invoked at %v, context timeout %v) cancels active exports at %v", where, c.end, w.sdInv, w.sdTimeout, forceAt)
+				r.Violate(prop, "returned-late", "returned-late/forced-shutdown/"+kind, "%s returned at %v although Shutdown (invoked at %v, context timeout: %s) cancels active exports at %v", where, c.end, w.sdInv, sdCtx, forceAt)
 			}
 			if c.start <= forceAt && c.end >= forceAt && c.err != nil {
 				r.Probe("export-cancelled-by-shutdown")
